@@ -1367,6 +1367,17 @@ ares_status_t ares_send_query(ares_server_t *requested_server,
     /* LCOV_EXCL_STOP */
   }
 
+  /* If this query now has the earliest deadline, an event thread that is
+   * already asleep computed its wakeup time without it.  Opening a connection
+   * wakes the thread as a side effect of registering the socket, but sending
+   * on an idle connection that was kept open changes no socket interest, and
+   * the thread would sleep past the deadline (forever, if nothing else was
+   * outstanding). */
+  if (ares_slist_node_first(channel->queries_by_timeout) ==
+      query->node_queries_by_timeout) {
+    ares_event_thread_wake_channel(channel);
+  }
+
   /* Keep track of queries bucketed by connection, so we can process errors
    * quickly. */
   ares_llist_node_destroy(query->node_queries_to_conn);
